@@ -211,3 +211,20 @@ def coq_decls(decls, sig, input_vars, exposed):
 
 def size(e):
     return 1 + sum(size(x) for x in e[1:] if isinstance(x, tuple))
+
+
+def unfolded_size(decls):
+    """size of every declaration's expression tree with variable references expanded"""
+    sizes = []
+    for d in decls:
+        if d[0] == "in":
+            sizes.append(1)
+            continue
+
+        def sz(e):
+            if e[0] == "var":
+                return sizes[e[1]]
+            return 1 + sum(sz(x) for x in e[1:] if isinstance(x, tuple))
+
+        sizes.append(sz(d[2]))
+    return sizes
